@@ -129,6 +129,9 @@ func makeReportTelemetry(r Report, cd llotypes.ChannelDefinition, donID uint32) 
 	}
 	svs := make([]*LLOStreamValue, len(r.Values))
 	for i, v := range r.Values {
+		if v == nil {
+			return nil, fmt.Errorf("nil stream value at index %d", i)
+		}
 		b, err := v.MarshalBinary()
 		if err != nil {
 			return nil, fmt.Errorf("error marshalling stream value: %w", err)
